@@ -424,8 +424,9 @@ def run_case(job):
     if text is not None and fmt != "json" and plain_path is not None:
         pre = [_s(l) for l in t.get("preamble", [])]
         ks = sorted(t.get("skips", []))
-        if pre and ks:
-            k = ks[idx % len(ks)]
+        # quick: every second case (all families and classes are still met); thorough: every case
+        if pre and ks and (tier == "thorough" or idx % 2 == 0):
+            k = ks[(idx // 2) % len(ks)]
             cmp = COMPRESSIONS[idx % len(COMPRESSIONS)]
             hpath = _scratch / f"{stem}_pre.{SUFFIX[fmt]}{cmp}"
             written.append(hpath)
